@@ -327,7 +327,7 @@ class ManifestContext:
 
         self.cgi_params = self.calculate_cgi_parameters(
             audio=audio_adps, video=video)
-        if requested_depth and requested_depth != opts.timeShiftBufferDepth:
+        if requested_depth is not None and requested_depth != opts.timeShiftBufferDepth:
             # the stream is younger than the requested timeShiftBufferDepth.
             # A reload of this manifest, or its patch, has to keep asking
             # for the requested depth, otherwise the window would stop
